@@ -185,8 +185,7 @@ def main():
         'notes': 'All exploration runs the implementation itself; violations are confirmed by two fresh-process '
                  'replays before being reported. known_findings.json lists recorded and fixed defects.',
     }
-    if na:
-        m['not_applicable'] = na
+    m['not_applicable'] = na      # empty: every listed property is claimed
     with open(os.path.join(BASE, 'MANIFEST.json'), 'w') as f:
         json.dump(m, f, indent=1)
     print('claimed:', [c['property_id'] for c in checks])
